@@ -632,6 +632,44 @@ def c20_files(case):
     return files, dirs
 
 
+# ---- the byte-level form of a user's file ------------------------------------------------------------------------------------------
+# The same text reaches a budget folder in many byte-level forms (an editor on Windows, a spreadsheet export, a sync client, a file
+# typed on a phone).  The frame condition of C20 is about BYTES: a file a command must keep is byte-identical afterwards; settings.yaml,
+# the one file `init` / the migration may add lines to, keeps its old bytes as a PREFIX of the new ones.  A command that reads a file as
+# text and writes it back (to "append" safely, to normalise, to re-format) preserves the text of an LF / UTF-8 / newline-terminated file
+# and silently rewrites every other one.  `byteform` turns a generated text into one of these forms; the Lean model never sees it
+# (contents are symbolic there: "new content = old ++ appended lines" is `initFrameB`, proved over all shapes).
+BYTEFORMS = ('crlf', 'cr', 'mixed-eol', 'no-final-newline', 'bom', 'trailing-blanks', 'non-ascii-comment', 'long-line', 'blank-tail')
+COMMENT_FORMS = ('non-ascii-comment', 'long-line')          # need a file format with `#` comment lines
+
+
+def byteform(txt, forms):
+    """text -> text whose UTF-8 encoding (written with newline='') is the requested byte-level form(s)"""
+    lines = txt.split('\n')
+    if 'non-ascii-comment' in forms:
+        lines.insert(1 if len(lines) > 1 else 0, '# Zoë’s Haushalt — café · 家計簿 · €uro ½ \u00a0\u200b')
+    if 'long-line' in forms:
+        lines.insert(1 if len(lines) > 1 else 0, '# ' + 'lorem ipsum 0123456789 ' * 400)
+    if 'trailing-blanks' in forms:
+        # blanks only (a tab is not YAML white space everywhere), and not on the first line (a CSV header cell 'Subcategory ' is another name)
+        lines = [ln + ('  ' if i % 2 else ' ') if ln and 0 < i < len(lines) - 1 else ln for i, ln in enumerate(lines)]
+    txt = '\n'.join(lines)
+    if 'blank-tail' in forms:
+        txt += '\n\n   \n'
+    if 'no-final-newline' in forms:
+        txt = txt.rstrip('\n')
+    if 'crlf' in forms:
+        txt = txt.replace('\n', '\r\n')
+    elif 'cr' in forms:
+        txt = txt.replace('\n', '\r')
+    elif 'mixed-eol' in forms:
+        parts = txt.split('\n')
+        txt = ''.join(ln + ('' if i + 1 == len(parts) else ('\r\n', '\n', '\r\n', '\r')[i % 4]) for i, ln in enumerate(parts))
+    if 'bom' in forms:
+        txt = '\ufeff' + txt
+    return txt
+
+
 def build_extra(root, extra, prefix=''):
     for rel, spec in (extra or {}).items():
         txt, mode = (spec.get('text', ''), spec.get('mode')) if isinstance(spec, dict) else (spec, None)
@@ -658,8 +696,17 @@ def do_c20_case(case, scratch):
     try:
         prefix = 'tally' if case.get('layout') == 'new' else ''
         files, dirs = c20_files(case)
+        extra = {rel: (dict(spec) if isinstance(spec, dict) else {'text': spec}) for rel, spec in (case.get('extra_files') or {}).items()}
+        for rel, forms in (case.get('byteform') or {}).items():      # byte-level form of the user's files (see `byteform`)
+            if rel in files:
+                files[rel] = byteform(files[rel], forms)
+            elif rel in extra:
+                extra[rel]['text'] = byteform(extra[rel].get('text', ''), forms)
         build(root, files, dirs, prefix)
-        build_extra(root, case.get('extra_files'), prefix)
+        for rel, mode in (case.get('modes') or {}).items():          # permission bits of tally's own kinds of files
+            if rel in files:
+                os.chmod(os.path.join(root, prefix, rel), mode)
+        build_extra(root, extra, prefix)
         build_extra(root, case.get('root_files'), '')          # beside the budget folder (new layout: the folder `tally/` lives in)
         steps = []
         for argv in case['commands']:
@@ -688,6 +735,10 @@ def do_c20_case(case, scratch):
                                'kept_elsewhere': any(isinstance(b, bytes) and a2 == b for a2 in after.values())}
                 if rel in mode_changed:
                     detail[rel]['mode'] = ['%o' % m for m in mode_changed[rel]]
+                if isinstance(b, bytes) and isinstance(a, bytes) and b != a and not a.startswith(b):
+                    k = next((i for i, (x, y) in enumerate(zip(b, a)) if x != y), min(len(a), len(b)))      # first byte that differs
+                    detail[rel]['first_diff'] = {'offset': k, 'old_len': len(b), 'new_len': len(a),
+                                                 'old': repr(b[max(0, k - 12):k + 12]), 'new': repr(a[max(0, k - 12):k + 12])}
             steps.append({'argv': argv, 'outcome': r['outcome'], 'audit': aud, 'changed': changed, 'detail': detail, 'tree_size': len(before),
                           'stdout_head': io.open(so, encoding='utf-8', errors='replace').read()[:300]})
         return {'steps': steps, 'prefix': prefix}
